@@ -11,7 +11,7 @@ CLAUSES = {
     'C02': {'Resolve404', 'Method', 'Allow', 'Outcome'},
     'C11': {'Resolve404', 'Route', 'Params', 'Method', 'Allow', 'Hooks', 'IndexAgree', 'Outcome'},
 }
-VERBS = ['GET', 'HEAD', 'POST', 'DELETE', 'get', 'Head']
+VERBS = ['GET', 'HEAD', 'POST', 'DELETE', 'get', 'Head', 'PURGE', 'trace']      # incl. verbs outside the standard set: they fall back to ANY too
 TOKEN = rl.TOKEN
 
 
@@ -255,12 +255,15 @@ def run(chk, pid):
     thorough = chk.tier == 'thorough'
     # 1. design level
     jobs = []
+    incomplete = []
 
     def mc(module, cfg, what):
         def job():
             ws = core.tla_workspace()
-            r = core.run_tlc(ws, module, cfg, allow_violation=True, workers=8, timeout=3000)
-            chk.add_tlc(r, what)
+            r = core.run_tlc(ws, module, cfg, allow_violation=True, workers=8, timeout=3000, budget=1500 if cfg.endswith('_t.cfg') else None)
+            chk.add_tlc(r, what + ('' if r.complete else ' (stopped by the time budget: breadth-first prefix of the state space)'))
+            if not r.complete:
+                incomplete.append(cfg)
             if not r.ok:
                 raise core.MachineryError('model-level invariant violated (%s): %s\n%s' % (cfg, r.violated, r.out[-2500:]))
             return []
@@ -274,11 +277,16 @@ def run(chk, pid):
             chk.add_tlc(r, ('simulate ' if simulate else 'state cover ') + cfg)
             return r.printed_json('W')
         return job
-    jobs.append(mc('MC_Router_q', 'MC_Router_t.cfg' if thorough else 'MC_Router_q.cfg', 'exhaustive edit histories + all probes'))
+    jobs.append(mc('MC_Router_q', 'MC_Router_q.cfg', 'exhaustive edit histories + all probes'))
     jobs.append(cover('MC_RouterCover_q.cfg'))
     jobs.append(cover('MC_RouterSim_t.cfg', simulate='num=%d' % (1500 if thorough else 150)))
-    res = core.parallel(jobs, max_workers=3)
-    chk.exhaustive = True
+    if thorough:
+        jobs.append(mc('MC_Router_q', 'MC_Router_t.cfg', 'exhaustive edit histories + all probes, larger universe, 5 operations'))
+    res = core.parallel(jobs, max_workers=4)
+    chk.exhaustive = True        # MC_Router_q.cfg always runs to completion
+    if incomplete:
+        chk.note('the thorough exhaustive configuration %s did not finish within its time budget: the states explored (breadth first) '
+                 'hold the invariants; the quick configuration (MC_Router_q.cfg) is exhaustive' % incomplete)
     wl = res[1] + res[2]
     if not thorough and len(wl) > 1700:
         wl = rng.sample(res[1], min(len(res[1]), 1500)) + res[2][:150]
